@@ -21,6 +21,7 @@
    Every unchecked index / type assertion / nil dereference of the Go code is [Panic].  No proofs in this file. *)
 From Coq Require Import List String Ascii QArith ZArith Bool Arith.
 From Crem Require Import Base.Res CsvTable GoCast.
+From Crem Require BoolArchive.        (* C09's model of BooleanArchive: only split_colon / parse_uint_hex64 are used here *)
 Import ListNotations.
 Local Open Scope string_scope.
 Local Open Scope nat_scope.
@@ -64,7 +65,15 @@ Definition vtext_ok (v : vtext) : bool :=
 
 (* ---------- the engine side ---------- *)
 
+(* BooleanArchive.Decode(s) on an archive of [nw] words returns no error: strings.Split(s, ":") has nw entries and
+   every entry passes strconv.ParseUint(entry, 16, 64) (BoolArchive.v; Decode stores nothing otherwise, ee825ef) *)
+Definition actions_decodable (nw : nat) (s : string) : bool :=
+  Nat.eqb (List.length (BoolArchive.split_colon s)) nw
+  && forallb (fun e => match BoolArchive.parse_uint_hex64 e with Some _ => true | None => false end)
+             (BoolArchive.split_colon s).
+
 Section Engine.
+  Variable nw : nat.                           (* words of the scenario's action archive: ceil(actions / 64) *)
   Variable cast : caster.
   Variable fmt : num -> string.
   Variable asis : list (string * num).         (* decision variables of the scenario's as-is model, by name *)
@@ -162,6 +171,12 @@ Section Engine.
   Definition verify_summary (t : table) : res bool :=
     do dims <- column_and_row_size t;
     if fst dims <? List.length asis + 3 then Ok false            (* no column for each decision variable: 400 *)
+    else
+    (* every Actions cell (As-Is row included) must decode on a scratch compression of the as-is model;
+       the first one that does not: 400 *)
+    do decodable <- all_res_early (map (fun row =>
+        do e <- cell_string fmt t (fst dims - 2) row; Ok (actions_decodable nw e)) (seq 0 (snd dims)));
+    if negb decodable then Ok false
     else
     all_res_early (map (fun row =>
         do l <- cell_string fmt t 0 row;
@@ -270,11 +285,16 @@ Definition is_number (s : string) : bool := match go_cast s with Some (TNum _) =
 Definition reserved_heading (s : string) : bool :=
   String.eqb s "Solution" || String.eqb s "Summary" || String.eqb s "Actions".
 
-Definition row_ok (nvars : nat) (r : srow) : bool :=
+Definition row_shape_ok (nvars : nat) (r : srow) : bool :=
   Nat.eqb (List.length (r_values r)) nvars
   && is_text (r_note r)
   && forallb is_number (r_values r)
   && forallb is_hexcolon (chars (r_enc r)).
+
+(* ... and its Actions text decodes into the scenario's action archive (true of every encoding the explorer's
+   compressor writes for that scenario: SummaryProofs.explorer_encoding_decodable, from C09) *)
+Definition row_ok (nw nvars : nat) (r : srow) : bool :=
+  actions_decodable nw (r_enc r) && row_shape_ok nvars r.
 
 Fixpoint nodup_labels (l : list string) : bool :=
   match l with
@@ -290,12 +310,24 @@ Definition asis_values_match (asis : list (string * num)) (r : srow) : bool :=
                        | _ => false end) (combine (r_values r) asis).
 
 (* everything the theorems need about a summary *)
-Definition wf_summary (asis : list (string * num)) (sm : list srow) : bool :=
+Definition wf_summary (nw : nat) (asis : list (string * num)) (sm : list srow) : bool :=
   match sm with
   | [] => false
   | r0 :: rest =>
     String.eqb (r_label r0) "As-Is" && asis_values_match asis r0
-    && forallb (row_ok (List.length asis)) sm
+    && forallb (row_ok nw (List.length asis)) sm
+    && nodup_labels (map r_label sm)
+    && forallb (fun p => negb (reserved_heading (fst p))) asis
+    && nodup_labels (map fst asis)
+  end.
+
+(* the same without the decodability of the Actions texts *)
+Definition wf_summary_shape (asis : list (string * num)) (sm : list srow) : bool :=
+  match sm with
+  | [] => false
+  | r0 :: rest =>
+    String.eqb (r_label r0) "As-Is" && asis_values_match asis r0
+    && forallb (row_shape_ok (List.length asis)) sm
     && nodup_labels (map r_label sm)
     && forallb (fun p => negb (reserved_heading (fst p))) asis
     && nodup_labels (map fst asis)
